@@ -104,6 +104,11 @@ class Dataset:
         self.bump = rng.uniform(0.01, 0.04, size=(nq, npm)) if fam == "generic" else np.zeros((nq, npm))
         self.bump_k = rng.uniform(4.0, 9.0, size=(nq, npm))
         self.bump_p = rng.uniform(0.0, 6.28, size=(nq, npm))
+        if s.get("soft_mode"):
+            # one soft optical branch: positive but below 1 cm^-1 at every volume (a nearly unstable mode)
+            self.a0[nq - 1, npm - 1] = np.log(0.5)
+            self.a1[nq - 1, npm - 1] = -0.3
+            self.a2[nq - 1, npm - 1] = self.a3[nq - 1, npm - 1] = self.bump[nq - 1, npm - 1] = 0.0
         # --- weights
         if s["weights_int"]:
             self.weights = rng.integers(1, 12, size=nq).astype(float)
@@ -116,6 +121,8 @@ class Dataset:
         self.b0_au = s["b0"] * refphys.GPA_TO_AU
         self.bp = s["bp"]
         self.e0 = float(rng.uniform(-400.0, -10.0))
+        if s.get("big_energy"):
+            self.e0 = float(rng.uniform(-9e4, -3e4))       # all-electron / large-cell total energies
         self.energies = np.array([float("%.10f" % x) for x in self.bm3(self.volumes)])
         # --- static elastic table
         self.nv_static = s["nv_static"]
@@ -496,3 +503,25 @@ class ExampleDataset:
         q.update({"NT": nt, "DT": dt, "DT_SAMPLE": dt, "T_MIN": 0})
         q["DELTA_P_SAMPLE"] = q.get("DELTA_P", 1)
         return q
+
+
+# ----------------------------------------------------------------------------------------------------
+_REUSED = {}
+
+
+def reused_dir(tag):
+    """One directory per process and tag, re-used by successive cases (its files are rewritten): users re-run
+    calculations in the same directory, so nothing may be remembered about a path.  Removed at interpreter exit."""
+    import atexit
+    d = _REUSED.get((os.getpid(), tag))
+    if d is None or not os.path.isdir(d):
+        d = tempfile.mkdtemp(prefix="cijreuse-%s-" % tag)
+        _REUSED[(os.getpid(), tag)] = d
+        atexit.register(shutil.rmtree, d, True)
+    for f in os.listdir(d):
+        fp = os.path.join(d, f)
+        if os.path.isdir(fp):
+            shutil.rmtree(fp, ignore_errors=True)
+        else:
+            os.remove(fp)
+    return d
